@@ -663,7 +663,7 @@ def stub_get_sp_from_ws(interp, b):
 
 class GetSP(PContract):
     target = f"{PRJ}.Project._get_statepoint"
-    properties = ("C08", "C09")
+    properties = ("C01", "C08", "C09")
     callees = {f"{PRJ}.Project._get_statepoint_from_workspace": stub_get_sp_from_ws}
 
     def cases(self):
